@@ -14,7 +14,7 @@ outcome: it is not an outcome of the real code at all.
 Only property theorems live here (each is audited with `#print axioms`); helper lemmas are in
 `RuschmProofs/SafeFront.lean` (lexer, reader, macro builders, `toStatement`),
 `RuschmProofs/SafeExpand.lean` (macro expansion keeps data `n/0`-free, `toStatement` produces `ok`
-code), `RuschmProofs/SafeLemmas.lean` (native procedures), `RuschmProofs/SafeUsable.lean` (the probe).
+code), `RuschmProofs/SafeLemmas.lean` (native procedures), `RuschmProofs/SafeEval.lean` (the evaluator), `RuschmProofs/SafeUsable.lean` (the probe).
 Vocabulary (`NoPanic`, `ratOk`, `ok`, `Value.Safe`, `Store.Safe`, `Interp.Safe`) is defined in
 `RuschmSpec/Safe.lean`.
 -/
@@ -22,6 +22,7 @@ import RuschmProofs.SafeFront
 import RuschmProofs.SafeExpand
 import RuschmProofs.SafeLemmas
 import RuschmProofs.SafeUsable
+import RuschmProofs.SafeEval
 
 namespace Ruschm.C07
 open Ruschm
@@ -150,6 +151,58 @@ theorem applyPure_no_panic {σ : Store} {b : Builtin} {args : List Value} (hb : 
 /-- the hypotheses are needed: a denominator 0 does reach the `exact_ratio` panic -/
 example : (Prim.applyPure {} .floor [.num (.rat 1 0)]).1 =
     .error (.panic "floor: zero denominator", none) := rfl
+
+/-! ## 4. The evaluator -/
+
+/-- MAIN evaluator theorem: the safety invariant `Eval.SafeAt` (RuschmSpec/Safe.lean) holds for
+every amount of fuel — for all eight functions of the evaluator's mutual block, from a safe store
+(`Store.Safe` = well-formed and every stored value safe), on `ok` code, with good arguments and a
+procedure in operator position, the outcome is never a panic, the store stays safe, and the
+result is safe and allocated. By induction on fuel. -/
+theorem eval_no_panic (fuel : Nat) : Eval.SafeAt fuel := Eval.safeAt fuel
+
+/-- `evalExpr`, spelled out. -/
+theorem evalExpr_no_panic {fuel : Nat} {σ : Store} {ρ : Nat} {e : Expr} (hσ : σ.Safe)
+    (hρ : ρ < σ.frames.size) (he : e.ok = true) :
+    NoPanic (Eval.evalExpr fuel σ ρ e).1 ∧ (Eval.evalExpr fuel σ ρ e).2.Safe ∧
+      ∀ v, (Eval.evalExpr fuel σ ρ e).1 = .ok v → v.Safe ∧ (Eval.evalExpr fuel σ ρ e).2.AllocIn v :=
+  have h := Eval.evalExpr_post (fuel := fuel) hσ hρ he
+  ⟨noPanic_iff.2 h.np, h.store, h.val⟩
+
+/-- `applyProcedure` (the trampoline), spelled out: `p` must be a procedure, as every caller
+checks. -/
+theorem applyProcedure_no_panic {fuel : Nat} {σ : Store} {p : Value} {args : List Value} {env : Nat}
+    (hσ : σ.Safe) (hp : p.Safe ∧ σ.AllocIn p) (ha : ∀ a ∈ args, a.Safe ∧ σ.AllocIn a)
+    (hq : (Eval.procArity p).isSome = true) :
+    NoPanic (Eval.applyProcedure fuel σ p args env).1 ∧ (Eval.applyProcedure fuel σ p args env).2.Safe ∧
+      ∀ v, (Eval.applyProcedure fuel σ p args env).1 = .ok v → v.Safe :=
+  have h := (Eval.safeAt fuel).proc σ p args env _ _ rfl hσ hp ha hq
+  ⟨noPanic_iff.2 h.np, h.store, fun v hv => (h.val v hv).1⟩
+
+/-- the initial store is safe, and code exists that is `ok` -/
+example : Store.root.Safe ∧ (0 : Nat) < Store.root.frames.size ∧
+    (Expr.call (.lambda (.mk ⟨["x"], none⟩ [] [.sym "x" none]) none) [.prim (.rat 1 2) none] none).ok = true :=
+  ⟨⟨Store.wf_root, ⟨fun i f h kv hkv => by
+      simp only [Store.root] at h
+      cases i with
+      | zero => simp at h; subst h; simp at hkv
+      | succ i => simp at h,
+    fun i c h => by simp [Store.root] at h⟩⟩, by decide, rfl⟩
+
+/-- the hypotheses are needed: an empty body does reach the `unreachable!`, a non-procedure the
+`not a procedure` site, too few arguments the `unwrap` of `apply_scheme_procedure`, and a literal
+`1/0` the division in `exact_ratio` -/
+example : (Eval.evalBody 1 {} 0 []).1 = .error (.panic "apply_scheme_procedure: empty body", none) := by
+  simp [Eval.evalBody]
+example : (Eval.applyLoop 1 {} (.num (.int 1)) [] 0).1 =
+    .error (.panic "apply_procedure: not a procedure", none) := by
+  simp [Eval.applyLoop, Eval.procArity]
+example : (Eval.applyScheme 1 {} (.mk ⟨["x"], none⟩ [] [.sym "x" none]) 0 []).1 =
+    .error (.panic "apply_scheme_procedure: arg_iter.next().unwrap()", none) := by
+  simp [Eval.applyScheme, Eval.bindFixed, Lambda.formals, Store.newFrame]
+example : (Eval.evalExpr 1 {} 0 (.prim (.rat 1 0) none)).1 =
+    .error (.panic "exact_ratio: zero denominator", none) := by
+  simp [Eval.evalExpr, Eval.evalPrim, Num.exactRatio, Except.map]
 
 /-! ## 7. After ANY outcome the interpreter still evaluates -/
 
